@@ -10,6 +10,7 @@ enters through `get(k, 0)`), keep the keys and their order, and raise KeyError e
 -/
 import RigModel.Model.C02
 import RigModel.Gen.PyFun
+import RigModel.Lemmas.PyLoops
 set_option linter.unusedSimpArgs false
 set_option linter.unusedVariables false
 set_option linter.unusedTactic false
@@ -99,6 +100,28 @@ theorem gen_resources_after_reservation_absent (d : List (Int × Int)) (k start 
   unfold PyFun.resources_after_reservation
   dsimp only
   rw [dictUpd_absent d k _ h]
+
+/-! ### `Machine.__contains__` for a chip (rig/place_and_route/machine.py) -/
+
+/-- a chip of the model as the Python pair -/
+def chipPy (c : Chip) : Int × Int := ((c.1 : Int), (c.2 : Int))
+
+/-- `(x, y) in machine` as written in the source = the model's `Machine.ok` (whatever the dead links are) -/
+theorem gen_machine_ok (m : Machine) (c : Chip) (dl : List (Int × Int × Int)) :
+    (PyFun.Machine_contains_chip (m.w : Int) (m.h : Int) (m.dead.map chipPy) dl (chipPy c)).1 = m.ok c := by
+  obtain ⟨x, y⟩ := c
+  unfold PyFun.Machine_contains_chip Machine.ok
+  have hc : (m.dead.map chipPy).contains (chipPy (x, y)) = m.dead.contains (x, y) :=
+    Rig.PyLoops.contains_map_inj chipPy
+      (by intro a b h; obtain ⟨a1, a2⟩ := a; obtain ⟨b1, b2⟩ := b; simp [chipPy] at h ⊢; omega) m.dead (x, y)
+  simp only [chipPy] at hc ⊢
+  rw [Bool.eq_iff_iff]
+  simp only [hc, decide_eq_true_eq, Bool.and_eq_true, Bool.not_eq_true', Bool.not_eq_true]
+  constructor
+  · rintro ⟨⟨_, h1⟩, ⟨_, h2⟩, h3⟩
+    exact ⟨⟨by omega, by omega⟩, by simpa using h3⟩
+  · rintro ⟨⟨h1, h2⟩, h3⟩
+    exact ⟨⟨by omega, by omega⟩, ⟨by omega, by omega⟩, by simpa using h3⟩
 
 /-- the hypotheses are satisfiable: two resources, the second reserved -/
 example : PyFun.resources_after_reservation ([10, 20].zip [5, 7]) (20, 1, 3) = .ok [(10, 5), (20, 5)] := by decide
